@@ -11,7 +11,7 @@ from harness import tlcrun, check  # noqa: E402
 
 depth, mod, invs = int(sys.argv[1]), sys.argv[2], sys.argv[3:]
 wd = os.path.join(ROOT, '.work', 'cex_%d' % os.getpid())
-tlcrun.prepare(wd, mod, check.cfg_text(depth, False, invs))
+tlcrun.prepare(wd, mod, check.cfg_text(depth, True, invs).replace('INVARIANT EmitTrace\n', ''))
 env = dict(os.environ, JAVA_TOOL_OPTIONS='-Xmx4g -Xss64m')
 out = subprocess.run(['tlc', '-workers', '4', '-metadir', wd + '/states', '-noGenerateSpecTE', mod + '.tla'], cwd=wd,
                      capture_output=True, text=True, env=env).stdout
@@ -28,7 +28,7 @@ for st in re.split(r'\nState \d+: ', out)[1:]:
         continue
     who = re.search(r'x \|-> "(\w)"', t)
     act = re.search(r'a \|-> "(\w+)"', t)
-    call = re.search(r' c \|-> (\[op.*?\]),? (?:a|x|p) \|->', t)
+    call = re.search(r' c \|-> (\[.*?\]),? (?:a|x|p) \|-> ', t) or re.search(r' c \|-> (\[.{0,260})', t)
     fs = re.search(r'fs \|-> (<<.*?>>),? (?:a|x|p|c) \|->', t)
     k = re.search(r' k \|-> (\d+)', t)
     r = re.search(r'r \|-> (\[c \|-> "[^"]*", e \|-> -?\d+[^\]]*\])', t)
